@@ -264,6 +264,14 @@ def build(run):
             lambda: C.Zero((2,)), lambda: C.IntValue(2) * f, lambda: f("+"), lambda: f("-"), lambda: grad(grad(f)), lambda: C.Constant(t["msh"], (2,), count=7555),
             lambda: C.Constant(t["msh"], (3,), count=7555), lambda: C.Constant(t["msh"], (), count=7555) * f,
         ]
+        # operators that carry data besides their operands (external operators, interpolation): the data must take part in ==
+        # also when the node sits inside another expression
+        S2 = FunctionSpace(t["msh"], P1)
+        EO = lambda fs, d: C.ExternalOperator(f, g, function_space=fs, derivatives=d)      # noqa: E731
+        mk += [lambda: EO(t["S"], (0, 0)), lambda: EO(t["S"], (0, 1)), lambda: EO(S2, (0, 0)),
+               lambda: 2 * EO(t["S"], (0, 0)) + f, lambda: 2 * EO(t["S"], (0, 1)) + f, lambda: 2 * EO(S2, (0, 0)) + f,
+               lambda: sin(EO(t["S"], (1, 0))) * g, lambda: sin(EO(t["S"], (0, 1))) * g,
+               lambda: ufl.interpolate(f * g, t["S"]) * g, lambda: ufl.interpolate(f * g, S2) * g]
         out = []
         for m in mk:
             out.append(m())
